@@ -1,0 +1,108 @@
+//! Construction of `ZmtpEngine` from outside the crate (its config type is crate-private).
+use crate::message::Blob;
+use crate::protocol::zmtp::engine::ZmtpEngine;
+use crate::socket::options::ZmtpEngineConfig;
+use std::sync::Arc;
+use std::time::Duration;
+
+/// Public mirror of the fields of `ZmtpEngineConfig` that the engine reads.
+#[derive(Debug, Clone)]
+pub struct VEngineConfig {
+  pub routing_id: Option<Vec<u8>>,
+  pub socket_type_name: String,
+  pub security_enabled: bool,
+  pub allow_zmtp2: bool,
+  pub heartbeat_ivl: Option<Duration>,
+  pub heartbeat_timeout: Option<Duration>,
+  pub use_send_zerocopy: bool,
+  pub use_cork: bool,
+  pub use_plain: bool,
+  pub plain_username: Option<String>,
+  pub plain_password: Option<String>,
+  pub use_curve: bool,
+  pub curve_local_secret_key: Option<[u8; 32]>,
+  pub curve_remote_public_key: Option<[u8; 32]>,
+  pub use_noise_xx: bool,
+  pub noise_xx_local_sk: Option<[u8; 32]>,
+  pub noise_xx_remote_pk: Option<[u8; 32]>,
+  pub max_msg_size: i64,
+  pub sndbatch_count: usize,
+  pub sndbatch_bytes: usize,
+  pub sndbatch_bytes_physical: usize,
+}
+
+impl Default for VEngineConfig {
+  fn default() -> Self {
+    let d = ZmtpEngineConfig::default();
+    Self {
+      routing_id: None,
+      socket_type_name: d.socket_type_name.clone(),
+      security_enabled: d.security_enabled,
+      allow_zmtp2: d.allow_zmtp2,
+      heartbeat_ivl: d.heartbeat_ivl,
+      heartbeat_timeout: d.heartbeat_timeout,
+      use_send_zerocopy: d.use_send_zerocopy,
+      use_cork: d.use_cork,
+      use_plain: false,
+      plain_username: None,
+      plain_password: None,
+      use_curve: false,
+      curve_local_secret_key: None,
+      curve_remote_public_key: None,
+      use_noise_xx: false,
+      noise_xx_local_sk: None,
+      noise_xx_remote_pk: None,
+      max_msg_size: d.max_msg_size,
+      sndbatch_count: d.sndbatch_count,
+      sndbatch_bytes: d.sndbatch_bytes,
+      sndbatch_bytes_physical: d.sndbatch_bytes_physical,
+    }
+  }
+}
+
+impl VEngineConfig {
+  fn to_internal(&self) -> ZmtpEngineConfig {
+    let mut c = ZmtpEngineConfig::default();
+    c.routing_id = self.routing_id.clone().map(Blob::from);
+    c.socket_type_name = self.socket_type_name.clone();
+    c.security_enabled = self.security_enabled;
+    c.allow_zmtp2 = self.allow_zmtp2;
+    c.heartbeat_ivl = self.heartbeat_ivl;
+    c.heartbeat_timeout = self.heartbeat_timeout;
+    c.use_send_zerocopy = self.use_send_zerocopy;
+    c.use_cork = self.use_cork;
+    #[cfg(feature = "plain")]
+    {
+      c.use_plain = self.use_plain;
+      c.plain_username_for_engine = self.plain_username.clone();
+      c.plain_password_for_engine = self.plain_password.clone();
+    }
+    #[cfg(feature = "curve")]
+    {
+      c.use_curve = self.use_curve;
+      c.curve_local_secret_key = self.curve_local_secret_key;
+      c.curve_remote_public_key = self.curve_remote_public_key;
+    }
+    #[cfg(feature = "noise_xx")]
+    {
+      c.use_noise_xx = self.use_noise_xx;
+      c.noise_xx_local_sk_bytes_for_engine = self.noise_xx_local_sk;
+      c.noise_xx_remote_pk_bytes_for_engine = self.noise_xx_remote_pk;
+    }
+    c.max_msg_size = self.max_msg_size;
+    c.sndbatch_count = self.sndbatch_count;
+    c.sndbatch_bytes = self.sndbatch_bytes;
+    c.sndbatch_bytes_physical = self.sndbatch_bytes_physical;
+    c
+  }
+}
+
+/// Builds a real `ZmtpEngine` exactly as the session/handler code does (`ZmtpEngine::new`).
+pub fn new_engine(is_server: bool, cfg: &VEngineConfig) -> ZmtpEngine {
+  ZmtpEngine::new(is_server, Arc::new(cfg.to_internal()))
+}
+
+/// `ZmtpEngineConfig::from(&SocketOptions)`'s rule for `security_enabled`, for harness use.
+pub fn security_enabled_rule(plain: bool, noise: bool, curve: bool) -> bool {
+  plain || noise || curve
+}
